@@ -20,6 +20,7 @@ BASE = {
     "no_commands": False, "second_file": False, "private_field_type": "u32", "crate_field": False,
     "cmd_rename_all": None, "param_serde_rename": None, "status_serde": True, "channel_name": "on_progress", "validator_range": None, "second_struct_field": "i32",
     "notice_min": 3, "notice_level": "i32", "notice_nested": "u8", "tm_targets": ("string", "string"),
+    "same_name_field_rename": False, "same_name_variant_rename": False, "no_events": False,
 }
 
 # edit classes: name -> function(state) (toggles, so that sequences compose); "affects": None=always, "zod"=only visible in zod mode
@@ -66,6 +67,9 @@ EDITS = [
     ("event-only-struct-validator", lambda s: s.update(notice_min=7 if s["notice_min"] == 3 else 3)),
     ("event-only-struct-field-type", lambda s: s.update(notice_level="String" if s["notice_level"] == "i32" else "i32")),
     ("type-nested-in-event-only-struct", lambda s: s.update(notice_nested="bool" if s["notice_nested"] == "u8" else "u8")),
+    # an explicit rename that spells the item's own Rust name is not a no-op under a container rename_all: it pins the name
+    ("field-rename-equal-to-own-name-under-rename_all", lambda s: s.update(rename_all="camelCase", same_name_field_rename=not s["same_name_field_rename"])),
+    ("variant-rename-equal-to-own-name-under-rename_all", lambda s: s.update(enum_rename_all="snake_case", same_name_variant_rename=not s["same_name_variant_rename"])),
     ("delete-generated-file:dependency-graph.txt", "delete:dependency-graph.txt"),
     ("delete-generated-file:dependency-graph.dot", "delete:dependency-graph.dot"),
     ("delete-generated-file:types.ts", "delete:types.ts"),
@@ -73,6 +77,8 @@ EDITS = [
     ("delete-generated-file:index.ts", "delete:index.ts"),
     ("delete-generated-file:events.ts", "delete:events.ts"),
     ("remove-all-commands/restore", lambda s: s.update(no_commands=not s["no_commands"])),
+    # the last emit disappears: events.ts is no longer part of the output and index.ts must stop re-exporting it
+    ("remove-all-events/restore", lambda s: s.update(no_events=not s["no_events"])),
     ("move-type-to-other-file", lambda s: s.update(second_file=not s["second_file"])),
     ("comment-noise(control)", lambda s: s.update(noise=s["noise"] + 1)),
 ]
@@ -89,7 +95,7 @@ def render(s):
     vattr = "#[validate(length(%s)%s)]" % (vargs, ", email" if s["validator_email"] else "")
     idattrs = ["#[validate(range(min = %d, max = %d))]" % s["validator_range"]] if s["validator_range"] else []
     fields = [("id", "i32", idattrs), ("display_name", s["field_type"], fattrs + ([vattr] if s["field_type"] == "String" else [])),
-              ("home_dir", "PathBuf"), ("created_at", "Timestamp"), ("status", "Status"), ("address", "Option<Address>")]
+              ("home_dir", "PathBuf", ['#[serde(rename = "home_dir")]'] if s["same_name_field_rename"] else []), ("created_at", "Timestamp"), ("status", "Status"), ("address", "Option<Address>")]
     if s["field_extra"]:
         fields.append(("extra_field", "Option<bool>"))
     fields.append(("secret_token", "String", ["#[serde(skip)]"] if s["field_skip"] else []))
@@ -97,7 +103,7 @@ def render(s):
     if s["crate_field"]:
         fields.append(("crate:internal_note", "Option<String>"))
     user = rg.struct_src("User", fields, rename_all=s["rename_all"], derives="Serialize, Deserialize, Validate")
-    variants = [("Active", ['#[serde(rename = "on")]'] if s["variant_rename"] else []), ("Disabled",)]
+    variants = [("Active", ['#[serde(rename = "on")]'] if s["variant_rename"] else []), ("Disabled", ['#[serde(rename = "Disabled")]'] if s["same_name_variant_rename"] else [])]
     if s["variant_extra"]:
         variants.append(("Pending",))
     status = rg.enum_src("Status", variants, rename_all=s["enum_rename_all"], derives="Serialize, Deserialize" if s["status_serde"] else None)
@@ -118,13 +124,13 @@ def render(s):
         cmds += rg.command_src("save_user", [("user", "User")], "Result<(), String>")
         if s["cmd_extra"]:
             cmds += rg.command_src("extra_cmd", [("flag", "bool")], "Status")
-    ev = "pub fn notify(app: AppHandle, payload: %s) {\n    app.emit(\"%s\", payload).unwrap();\n}\n\n" % (s["event_payload"], s["event_name"])
+    ev = "pub fn notify(app: AppHandle, payload: %s) {\n    %sapp.emit(\"%s\", payload).unwrap();\n}\n\n" % (s["event_payload"], "// " if s["no_events"] else "", s["event_name"])
     # a struct (with validators and a nested type) that only an event payload reaches
     ev += rg.struct_src("NoticeMeta", [("code", s["notice_nested"])])
     ev += rg.struct_src("Notice", [("text", "String", ['#[validate(length(min = %d, max = 20, message = "notice length"))]' % s["notice_min"]]), ("level", s["notice_level"]), ("meta", "Vec<NoticeMeta>")],
                         derives="Serialize, Deserialize, Validate")
-    ev += "pub fn notify_notice(app: AppHandle, n: Notice) {\n    app.emit(\"notice\", n).unwrap();\n}\n\n"
-    if s["event_extra"]:
+    ev += "pub fn notify_notice(app: AppHandle, n: Notice) {\n    %sapp.emit(\"notice\", n).unwrap();\n}\n\n" % ("// " if s["no_events"] else "")
+    if s["event_extra"] and not s["no_events"]:
         ev += "pub fn notify2(app: AppHandle) {\n    app.emit(\"tick\", 1).unwrap();\n}\n\n"
     hdr = rg.PRELUDE + "use std::path::PathBuf;\nuse tauri::{AppHandle, Emitter, ipc::Channel};\nuse validator::Validate;\n\n" + "// noise\n" * s["noise"]
     if s["second_file"]:
